@@ -146,11 +146,10 @@ def keysDistinct : List (QN × Str) → Bool
 
 /-- an attribute the generic model keeps verbatim: the value is not rewritten by
 `ParserUtils.parse_any_attribute` (it does not look like `p:local` with `p` a declared prefix),
-it is not `xsi:nil` (popped by `flush_start` when the element has text, and
-`WildcardNode.bind` turns missing text into `""`), and it is not a Clark name the writer
-re-encodes as a prefixed name (`is_xsi_type`) -/
+and it is not a Clark name the writer re-encodes as a prefixed name (`is_xsi_type`).
+(`xsi:nil` is kept since `convert_any_element` flushes the start tag before the text.) -/
 def attrOK (isDatatype : Str → Bool) (n : NsMap) (kv : QN × Str) : Bool :=
-  parseAnyAttribute kv.2 n = kv.2 && kv.1 ≠ xsiNil &&
+  parseAnyAttribute kv.2 n = kv.2 &&
   !(kv.2.head? = some '{' && (kv.1 = xsiType || isDatatype kv.2))
 
 mutual
